@@ -359,7 +359,11 @@ func (x *producerController) handleRegisterConsumer(ctx *ReceiveContext, registe
 		ctx.Watch(ctx.Sender())
 		x.consumerController = ctx.Sender()
 		x.registrationNonce = register.Nonce()
-		x.demandUpTo = x.currentSeq
+		// a new generation must not authorize new emissions: keep the lower of
+		// the old grant and currentSeq. A chunked message can store past the
+		// grant, so currentSeq alone could lift the demand beyond anything the
+		// consumer ever requested
+		x.demandUpTo = min(x.demandUpTo, x.currentSeq)
 	}
 
 	ack, err := commands.NewRegistrationAck(x.sessionID, x.confirmedSeq+1, x.registrationNonce)
@@ -857,7 +861,7 @@ func (x *producerController) handleTerminated(ctx *ReceiveContext, msg *Terminat
 	if x.consumerController != nil && msg.ActorPath().Equals(x.consumerController.Path()) {
 		x.consumerController = nil
 		x.registrationNonce = types.EmptyString
-		x.demandUpTo = x.currentSeq
+		x.demandUpTo = min(x.demandUpTo, x.currentSeq)
 	}
 }
 
